@@ -31,6 +31,10 @@
 //!        (sig `differs:<what>:<mutation class>`). The authentic request is sent to both servers
 //!        too: it must tell them apart (counter `leak/pairs-distinguished-by-valid-request`),
 //!        otherwise the differential is vacuous;
+//!  * `client` (part G3, `client.rs`): `DnsMultiplexer` (13 signed requests in flight) and
+//!    `UdpClientStream` built WITH the signer, hand-driven against the real server path: the
+//!    genuine reply completes the request, forged ones (bit flips, TSIG stripped, other secret /
+//!    key name, another in-flight request's MAC, no request MAC, stale time, empty MAC) never do;
 //!  * `panic`.
 //! Base requests vary what hickory's client helpers never produce: header bits RD/CD/AD/TC (and
 //! the reserved Z bit), EDNS OPT (version 0; payload sizes; DO) right before the TSIG, 0-2
@@ -534,8 +538,6 @@ impl<'a> Checker<'a> {
             _ => None,
         };
         // (b) differential: same bytes, same clock, same keys, zone differs in what the prerequisite names
-        let mut diff = None;
-        let mut twin_rcode = None;
         if let Some(wb) = wb {
             let ob = observe_twin(wb, &m.bytes, now);
             self.rep.count("leak/differential_pairs");
@@ -543,8 +545,8 @@ impl<'a> Checker<'a> {
                 self.rep.violation("panic", &format!("{}:{}", p.site(), m.class.split('@').next().unwrap_or("")), mk_case(w, Some(wb), &m.bytes, now, &m.class), json!("no panic"), json!({"message": p.message, "location": p.location, "server": "twin"}));
                 return;
             }
-            twin_rcode = ob.rcode;
-            diff = if ob.zone_changed {
+            let twin_rcode = ob.rcode;
+            let diff = if ob.zone_changed {
                 Some(("zone-changed".to_string(), json!({"twin_zone_changed": true})))
             } else if ob.decoder_refused {
                 Some(("reply-count".to_string(), json!({"twin": "decoder refused"})))
